@@ -87,6 +87,24 @@ def run(tier, replay=None):
                 f = os.path.join(gdir, 'scopes%d.py' % mi)
                 open(f, 'w').write(src)
                 files.append(f)
+            # a walrus inside (nested) comprehensions binds in the scope the comprehension is written in
+            wi = 0
+            for depth in (1, 2, 3):
+                for outer_binds in (True, False):
+                    for mod_binds in (True, False):
+                        comp = '(y := v)'
+                        for d in range(depth):
+                            comp = '[%s for %s in %s]' % (comp, 'v' if d == 0 else 'r%d' % d, 'rows' if d == depth - 1 else 'r%d' % (d + 1))
+                        src = ('y = -1\n' if mod_binds else '') + 'def f(rows):\n' + ('    y = 0\n' if outer_binds else '') + \
+                              '    def g(rows):\n        out = %s\n        return y, out\n    return g(rows), %s\n' % (comp, 'y' if (outer_binds or mod_binds) else '0')
+                        try:
+                            compile(src, '<walrus>', 'exec')
+                        except SyntaxError:
+                            continue
+                        fw = os.path.join(gdir, 'walrus%d.py' % wi)
+                        wi += 1
+                        open(fw, 'w').write(src)
+                        files.append(fw)
             n = core.NCPU
             pinned = [[2000000 + i, f['input']] for i, f in enumerate(ck.findings)]
             jobs = [{'chains': [[i, c['chain'], c['owners'], 0 if i % 2 == 0 else 1 + i % 7] for i, c in enumerate(chains)][k::n], 'pinned': pinned if k == 0 else [],
